@@ -3,6 +3,7 @@
 //! Every module is `#[cfg(kani)]`: this crate is only ever compiled by `cargo kani`
 //! (solver run, with the Vec-backed `bytes` model patched in) or by
 //! `cargo kani playback` in the replay workspace (real `bytes`).
+#![cfg_attr(kani, feature(allocator_api))]
 #![allow(dead_code, unused_imports, unused_variables, unused_mut, clippy::all)]
 
 #[cfg(kani)]
@@ -10,7 +11,9 @@
 pub mod util;
 
 #[cfg(kani)]
-mod c04;
+pub mod generated;
+#[cfg(kani)]
+pub mod c04;
 #[cfg(kani)]
 mod c05;
 #[cfg(kani)]
@@ -19,6 +22,8 @@ mod c09;
 mod c12;
 #[cfg(kani)]
 mod c13;
+#[cfg(kani)]
+mod c20;
 #[cfg(kani)]
 #[macro_use]
 pub mod sm;
